@@ -154,6 +154,8 @@ def _yield_reached(stmts: list[ast.stmt], assign: dict[str, object]) -> list[ast
     class Stop(Exception):
         pass
 
+    assign = dict(assign)
+
     def block(ss: list[ast.stmt]) -> None:
         for st in ss:
             if isinstance(st, ast.If):
@@ -164,6 +166,8 @@ def _yield_reached(stmts: list[ast.stmt], assign: dict[str, object]) -> list[ast
                 raise Stop()
             elif isinstance(st, ast.Pass) or (isinstance(st, ast.Expr) and isinstance(st.value, ast.Constant)):
                 pass
+            elif isinstance(st, ast.Assign) and len(st.targets) == 1 and isinstance(st.targets[0], ast.Name):
+                assign[st.targets[0].id] = Evaluator(assign).ev(st.value)  # a local flag of the decision
             else:
                 raise Unsupported(f"statement kind {type(st).__name__} in accessor body", st)
 
